@@ -4,7 +4,8 @@ Stages
   MC      spec/Hdf5.tla: all object graphs up to a bound are built (DFS construction through Next), saved
           (Hdf5Saver.save, one action per call) and loaded (Hdf5Loader.load); invariants: the file mirrors
           the graph, Load(Save(g)) ~ g exactly unless a hard link to a tuple under construction is followed
-          (documented exception; known defect: __reduce__ items), bounded work (termination), sharing.
+          (documented exception; known defect: a pickle-style state_setter makes the loader return None), bounded
+          work (termination), sharing; a witness run with the pre-fix save_reduce protocol must violate RoundTripPlain.
   REPLAY  every graph TLC finished (PrintT record of the Judge action) is built as a real Python object
           graph, saved with tenpy.tools.hdf5_io.save_to_hdf5 into an h5py file (and with pickle), loaded
           back; compared with the spec: sequence of save()/load() calls (interposition on Hdf5Saver.save /
